@@ -146,7 +146,9 @@ func (p *Printer) Print(w io.Writer, node Node) error {
 	case *Stmt:
 		p.stmtList([]*Stmt{node}, nil)
 	case Command:
-		p.command(node, nil)
+		// Print the command like a statement made of just that command,
+		// to share the logic that sets up the line and spacing state.
+		p.stmtList([]*Stmt{{Position: node.Pos(), Cmd: node}}, nil)
 	case *Word:
 		p.line = node.Pos().Line()
 		p.word(node)
